@@ -433,6 +433,7 @@ VH_CMD(c50_verify)
         case 3: { // (r, s, z) chosen from the pool; public key recovered so that the equation holds when that is possible
             r = PickScalar(rng);
             s = PickScalar(rng);
+            if (rng.chance(1, 5)) s = H32(POOL[8 + rng.below(2)]); // exactly (n-1)/2 or (n+1)/2: the low-S boundary
             if (rng.chance(1, 3)) { // r from a real nonce so that recovery succeeds more often
                 const CPubKey R = MakeKey(PickSecret(rng), true).GetPubKey();
                 std::copy(R.begin() + 1, R.begin() + 33, r.begin());
@@ -451,7 +452,7 @@ VH_CMD(c50_verify)
                 size_t sl = 65;
                 secp256k1_ec_pubkey_serialize(CTX(), ser, &sl, &rpk, SECP256K1_EC_UNCOMPRESSED);
                 pub = CPubKey(ser, ser + 65);
-                cls = "crafted-recovered";
+                cls = recid >= 2 ? "crafted-recovered-xr-ge-n" : "crafted-recovered"; // recid >= 2: the nonce point has x = r + n
             }
             break;
         }
